@@ -74,6 +74,7 @@ pub struct NetState {
     pub last_c2s_at: u64,
     pub dropped: bool,
     pub dropped_stamp: u64,
+    pub dropped_ns: u64,
     pub registered: bool,
     pub stats: NetStats,
     /// total bytes ever pushed into inbound (for stamping last inbound time)
@@ -104,6 +105,7 @@ pub fn new_net(cfg: NetCfg) -> Net {
         last_c2s_at: 0,
         dropped: false,
         dropped_stamp: 0,
+        dropped_ns: 0,
         registered: false,
         stats: NetStats::default(),
         last_inbound_ns: 0,
@@ -188,6 +190,7 @@ impl Drop for SimStream {
         let mut n = self.net.lock().unwrap();
         n.dropped = true;
         n.dropped_stamp = simrt::stamp();
+        n.dropped_ns = simrt::now_ns();
         n.set_readiness = None;
         simrt::trace("stream.drop", 0, 0);
     }
